@@ -218,33 +218,82 @@ def run_random(col, n, **kw):
                 col.observe(layout, ring, strats[0], tok, got, via='key')
 
 
+def random_history(rng, layout, ring, ndcs):
+    strats = random_strategies(rng, layout, ring, ndcs, 6)
+    hist = [['update_keyspace', strats[0]], ['query']]
+    for _ in range(rng.randint(2, 7)):
+        r = rng.random()
+        if r < 0.40:
+            hist.append(['update_keyspace', rng.choice(strats)])       # ALTER (or CREATE after a drop) schema event
+        elif r < 0.50:
+            hist.append(['rebuild_all', rng.choice(strats)])
+        elif r < 0.58:
+            hist.append(['assign_and_notify', rng.choice(strats)])
+        elif r < 0.66:
+            hist.append(['drop_keyspace'])
+        elif r < 0.78:
+            ring2 = [list(e) for e in ring]
+            if len(ring2) > 1 and rng.random() < 0.5:
+                ring2.pop(rng.randrange(len(ring2)))
+            else:
+                ring2[rng.randrange(len(ring2))][1] = rng.randrange(len(layout))
+            hist.append(['rebuild_ring', ring2])
+        elif r < 0.86:
+            hist.append(['rebuild_keyspace'])
+        elif r < 0.93:
+            hist.append(['remove_keyspace'])
+        else:
+            hist.append(['query'])
+    return hist
+
+
+def judge_history(col, layout, ring, history, queries, record=True):
+    """after EVERY step the replicas must be those of the CURRENT ring and the CURRENT replication settings"""
+    ctx = col.ctx
+    seen_strats = []
+    nbad = 0
+    for i, op, cur_ring, cur, obs in rh.play_history(layout, ring, history, queries):
+        if cur is None:
+            # keyspace dropped / not yet created: no replication settings, the statement says nothing (the driver answers [])
+            ctx.count('history_step', op[0] + ':no-keyspace' + ('' if all(not g for _, g in obs) else ':nonempty'))
+            continue
+        for t, got in obs:
+            j = rh.judge(layout, cur_ring, cur, t, got)
+            if j is None:
+                continue
+            nbad += 1
+            key, what = j
+            stale = [s for s in seen_strats if s != cur and rh.judge(layout, cur_ring, s, t, got) is None]
+            if stale:
+                key = 'Metadata.keyspace-change.stale-replica-map'
+                what = ('after step %d %r the replicas for token %d are %r = those of the OLD settings %r, current settings %r give %r'
+                        % (i, op[0], t, got, stale[-1], cur, sorted(rh.spec_replicas(layout, cur_ring, cur, t))))
+            ctx.violation(key, what, case={'layout': layout, 'ring': sorted(ring), 'history': history[:i + 1], 'queries': queries},
+                          kind='history', expected={'set': sorted(rh.spec_replicas(layout, cur_ring, cur, t)), 'no_repetition': True},
+                          actual=got, theorem='C26_replicas')
+            break
+        if cur not in seen_strats:
+            seen_strats.append(cur)
+        if record:
+            ctx.case(['history', i, op, layout, sorted(cur_ring), cur], nontrivial=nontrivial(layout, cur_ring, cur) and i > 0)
+            ctx.count('history_step', op[0])
+            col.cases.append(rh.g_case(layout, cur_ring, [(cur, obs)]))
+            col.meta.append({'layout': layout, 'ring': sorted(cur_ring), 'per': [(cur, obs)], 'history': history[:i + 1]})
+    return nbad
+
+
 def run_histories(col, n):
-    """keyspace alter / topology rebuild after a first lookup: the replicas must follow the new settings"""
+    """schema / topology events through the driver's real paths (Metadata._update_keyspace, _drop_keyspace, _rebuild_all,
+    rebuild_token_map, TokenMap.rebuild_keyspace / remove_keyspace) interleaved with lookups"""
     rng = col.ctx.rng
+    # directed: map built by a routed query, then ALTER through _update_keyspace, then another lookup
+    lay0, ring0 = [[0, 0], [0, 1], [0, 0]], [[-10, 0], [0, 1], [10, 2]]
+    for a, b in ((['simple', '1'], ['simple', '3']), (['nts', {'0': '1'}], ['nts', {'0': '2'}]), (['simple', '2'], ['nts', {'0': '3'}])):
+        judge_history(col, lay0, ring0, [['update_keyspace', a], ['query'], ['update_keyspace', b], ['query']], [-10, 0, 10, 11])
     for _ in range(n):
         layout, ring, ndcs = random_ring(rng, max_hosts=5, max_tok=3)
-        s1, s2 = random_strategies(rng, layout, ring, ndcs, 2)
-        impl = rh.Impl(layout, ring)
-        q = random_queries(rng, ring, -2 ** 63, 2 ** 63 - 1)[:8]
-        impl.set_keyspace('ks', s1)
-        obs1 = [(t, impl.replicas('ks', t)) for t in q]
-        impl.set_keyspace('ks', s2)                      # ALTER KEYSPACE -> _keyspace_updated -> rebuild_keyspace
-        obs2 = [(t, impl.replicas('ks', t)) for t in q]
-        # topology change: drop one host's tokens or move a token, then rebuild_token_map
-        ring2 = [list(e) for e in ring]
-        if len(ring2) > 1 and rng.random() < 0.5:
-            ring2.pop(rng.randrange(len(ring2)))
-        else:
-            ring2[rng.randrange(len(ring2))][1] = rng.randrange(len(layout))
-        impl.rebuild(ring2)
-        obs3 = [(t, impl.replicas('ks', t)) for t in q]
-        for (lay, rg, s, obs, step) in ((layout, ring, s1, obs1, 'first'), (layout, ring, s2, obs2, 'after-alter'), (layout, ring2, s2, obs3, 'after-rebuild')):
-            for t, got in obs:
-                col.observe(lay, rg, s, t, got, via='history:' + step)
-            col.ctx.case(['history', step, lay, sorted(rg), s], nontrivial=nontrivial(lay, rg, s))
-            col.ctx.count('history_step', step)
-            col.cases.append(rh.g_case(lay, rg, [(s, obs)]))
-            col.meta.append({'layout': lay, 'ring': sorted(rg), 'per': [(s, obs)], 'history': step})
+        q = random_queries(rng, ring, -2 ** 63, 2 ** 63 - 1)[:6]
+        judge_history(col, layout, ring, random_history(rng, layout, ring, ndcs), q)
 
 
 def load_corpus():
@@ -268,14 +317,14 @@ def run(ctx):
     if ctx.tier == 'quick':
         enumerate_scope(col, max_len=5, max_hosts=4, max_per_host=3, ndcs=2, nracks=2, source='enum<=5tok,4h,2r,2dc')
         run_random(col, 250)
-        run_histories(col, 40)
+        run_histories(col, 80)
         scope = 'every ring of <= 5 tokens over <= 4 hosts (<= 3 tokens each) x <= 2 racks x <= 2 DCs'
     else:
         enumerate_scope(col, max_len=7, max_hosts=4, max_per_host=3, ndcs=2, nracks=2, source='enum<=7tok,4h,2r,2dc', coq_len=6)
         enumerate_scope(col, max_len=6, max_hosts=6, max_per_host=1, ndcs=1, nracks=3, source='enum<=6h,1tok,3r,1dc')
         enumerate_scope(col, max_len=6, max_hosts=3, max_per_host=4, ndcs=1, nracks=3, source='enum<=6tok,3h,4tok,3r,1dc')
         run_random(col, 3000)
-        run_histories(col, 200)
+        run_histories(col, 600)
         scope = ('every ring of <= 7 tokens over <= 4 hosts (<= 3 tokens each) x <= 2 racks x <= 2 DCs; every ring of <= 6 single-token hosts x <= 3 racks; '
                  'every ring of <= 6 tokens over <= 3 hosts (<= 4 tokens each) x <= 3 racks')
     ctx.exhaustive = True
@@ -342,6 +391,19 @@ def first_model_difference(ctx, m):
 
 def replay(ctx, rp):
     case = rp.get('case') or {}
+    if 'history' in case:
+        bad = False
+        seen = []
+        for i, op, cur_ring, cur, obs in rh.play_history(case['layout'], [list(e) for e in case['ring']], case['history'], case['queries']):
+            for t, got in obs:
+                if cur is None:
+                    continue
+                j = rh.judge(case['layout'], cur_ring, cur, t, got)
+                print('replay step %d %r settings=%r token=%r driver=%r cassandra=%r %s' % (
+                    i, op[0], cur, t, got, rh.spec_replicas(case['layout'], cur_ring, cur, t), ('-> ' + j[0]) if j else 'ok'))
+                bad = bad or j is not None
+        print(('VIOLATION property=C26 replay=%s' % ctx.replay_path) if bad else 'not reproduced')
+        return 1 if bad else 0
     if 'ring' in case and 'strategy' in case and 'layout' in case:
         ring = [list(e) for e in case['ring']]
         impl = rh.Impl(case['layout'], ring)
